@@ -1,5 +1,23 @@
+//! Curve-layer monitors: C03 (group law), C04 (scalar multiplication), C05 (MSM), C12 (subgroup /
+//! cofactor), the curve-coordinate part of C11 and the curve part of C19.
 use monitor::*;
+use std::time::Instant;
+
+mod c03;
+mod c04;
+mod c05;
+mod curves;
+mod model;
+
 fn main() {
     let args = Args::parse();
-    panic!("mon_ec does not serve property {} yet", args.prop);
+    let t0 = Instant::now();
+    let (items, rule): (Vec<Item>, &str) = match args.prop.as_str() {
+        "C03" => (c03::items(&args), c03::RULE),
+        "C04" => (c04::items(&args), c04::RULE),
+        "C05" => (c05::items(&args), c05::RULE),
+        p => panic!("mon_ec does not serve property {p}"),
+    };
+    let rep = run_items(&args, items);
+    finish(&args, "mon_ec", rule, rep, t0)
 }
